@@ -24,7 +24,9 @@ extra() {  # further checks for a change
     *) echo "" ;;
   esac
 }
+# ONLY="C03 C11" restricts the campaign to the changes of those properties; their lines REPLACE the old ones in $OUT
 ls -d /verif/seeded/C*-m* | sort -V > $TMP/all.txt
+if [ -n "${ONLY:-}" ]; then grep -E "/($(echo $ONLY | tr ' ' '|'))-m" $TMP/all.txt > $TMP/sel.txt; mv $TMP/sel.txt $TMP/all.txt; fi
 split -n l/$STREAMS -d $TMP/all.txt $TMP/part.
 for part in $TMP/part.*; do
   (
@@ -38,6 +40,13 @@ for part in $TMP/part.*; do
   ) &
 done
 wait
-cat $TMP/part.*.out | grep -E "^C[0-9][0-9]-m[0-9]+ " > $OUT
+if [ -n "${ONLY:-}" ] && [ -f $OUT ]; then
+  grep -vE "^($(echo $ONLY | tr ' ' '|'))-m" $OUT > $TMP/keep.txt
+  cat $TMP/keep.txt > $OUT
+  cat $TMP/part.*.out | grep -E "^C[0-9][0-9]-m[0-9]+ " >> $OUT
+  sort -V -o $OUT $OUT
+else
+  cat $TMP/part.*.out | grep -E "^C[0-9][0-9]-m[0-9]+ " > $OUT
+fi
 rm -rf $TMP
 wc -l $OUT
